@@ -663,6 +663,7 @@ class Parser:
 
         self.check_name(alias)
         self.check_reserved_name("aliases", alias)
+        self.check_native_type_name("aliases", alias)
         self.check_duplicate_name(
             "aliases",
             alias,
@@ -1133,6 +1134,7 @@ class Parser:
         # Check for valid name
         self.check_name(name)
         self.check_reserved_name("struct_defs", name)
+        self.check_native_type_name("struct_defs", name)
 
         self.check_duplicate_name(
             "struct_defs",
@@ -1236,9 +1238,21 @@ class Parser:
                 f"{name} is a reserved name for internal use by the generated code: {section} -> {name} -> {self.current_file}"
             )
 
+    def check_native_type_name(self, section: str, name: str):
+        """Check that a type definition does not take the name of a native type.
+
+        A field type is looked up among the native types first, so such a definition could
+        never be used, and `typedef struct {...} int;` is not valid C.
+        """
+        if name in supported_types:
+            raise RTMASyntaxError(
+                f"{name} is the name of a native type: {section} -> {name} -> {self.current_file}"
+            )
+
     def handle_message_def(self, name: str, mdf: Dict[str, Any]):
         # Check for valid name
         self.check_name(name)
+        self.check_native_type_name("message_defs", name)
 
         self.check_duplicate_name(
             "message_defs",
